@@ -162,6 +162,8 @@ pub struct CfgProfile {
     pub alien: bool,
     /// traders 1 and 2 get long addresses sharing all but the last byte
     pub long_names: bool,
+    /// one deployment in three hands its vAMMs to the insurance fund
+    pub fund_owned: bool,
     /// caps on one vAMM in four only (for checks whose histories must stay liquid)
     pub caps_light: bool,
 }
@@ -182,6 +184,7 @@ impl CfgProfile {
             six_decimals: false,
             alien: false,
             long_names: false,
+            fund_owned: false,
             caps_light: false,
         }
     }
@@ -289,12 +292,13 @@ pub fn world_cfg_strategy(p: &CfgProfile) -> BoxedStrategy<WorldCfg> {
                 sel(partial_tab),
                 sel(fund_tab),
                 prop_oneof![3 => Just(false), 1 => Just(true)],
+                prop_oneof![2 => Just(false), 1 => Just(true)],
                 match p.real_feed {
                     Some(b) => Just(b).boxed(),
                     None => prop_oneof![3 => Just(false), 1 => Just(true)].boxed(),
                 },
             )
-                .prop_map(move |(mut vamms, maint, extra, liq_fee, partial_ratio, fund_balance, wl, real_feed)| {
+                .prop_map(move |(mut vamms, maint, extra, liq_fee, partial_ratio, fund_balance, wl, wl2, real_feed)| {
                     // the registry holds at most three vAMMs: a fourth one starts unregistered
                     for (i, v) in vamms.iter_mut().enumerate() {
                         if i >= 3 {
@@ -318,6 +322,7 @@ pub fn world_cfg_strategy(p: &CfgProfile) -> BoxedStrategy<WorldCfg> {
                     orphan: false,
                     poor_unlimited_allowance: false,
                     long_names: p.long_names,
+                    fund_owns_vamms: p.fund_owned && wl2,
                     }
                 })
         })
